@@ -57,12 +57,12 @@ type Report struct {
 	// ReferenceTree: the analysed tree is byte-identical (non-test Go sources) to the tree the self-tests and instance
 	// counts were validated on (reference_tree.json); self-test failures are fatal only there
 	ReferenceTree bool
-	Known       []KnownFinding
-	Extra       map[string]any
-	start       time.Time
-	quiet       bool
-	alias       map[string]string // when set: rule ids are rewritten through it and rules not listed are dropped
-	keep        func(construct string) bool // with alias: only obligations about these constructs are taken over
+	Known         []KnownFinding
+	Extra         map[string]any
+	start         time.Time
+	quiet         bool
+	alias         map[string]string           // when set: rule ids are rewritten through it and rules not listed are dropped
+	keep          func(construct string) bool // with alias: only obligations about these constructs are taken over
 }
 
 // WithAlias runs f (another property's rule set) keeping only the listed rules, reported under this property's ids.
